@@ -262,7 +262,8 @@ pub fn load_known(prop: &str) -> Vec<Json> {
     let mut v = vec![];
     if let Some(a) = j.get("findings").and_then(Json::as_arr) {
         for e in a {
-            if e.str_of("property") == prop {
+            let applies = e.get("applies_to").and_then(Json::as_arr).is_some_and(|a| a.iter().any(|x| x.as_str() == Some(prop)));
+            if e.str_of("property") == prop || applies {
                 v.push(e.clone());
             }
         }
